@@ -402,6 +402,29 @@ func (m *BatchMon) OnEvent(c *eng.Ctx, ms eng.MState, ev *eng.Event) eng.MState 
 			s.closed = true
 		case "cb:Exec":
 			s = m.onExec(c, s, life, ev, chk)
+		default:
+			// a stop flag kept in a sync/atomic value: Load / Store are the reads and writes of the
+			// shared flag, ordered by the atomic itself instead of the mutex
+			if ev.Callee != nil && strings.Contains(eng.CalleeName(ev.Callee), "sync/atomic.") && s.inTask > 0 {
+				name := eng.CalleeName(ev.Callee)
+				switch name[strings.LastIndex(name, ".")+1:] {
+				case "Load":
+					chk("C09.R2", "stop-flag-read", true, "")
+					if len(ev.Results) > 0 {
+						s.flagRead, s.flagReadOK = ev.Results[0], true
+					}
+				case "Store":
+					if len(ev.Args) >= 2 {
+						chk("C09.R2", "stop-flag-write", true, "")
+						chk("C07.R4", "shared-write", ev.Args[1].IsTrue() || ev.Args[1].IsFalse(), "a variable shared between batch tasks receives a value computed from an item ("+ev.Args[1].Pretty()+"): items are no longer processed independently")
+						if ev.Args[1].IsTrue() {
+							s.flagSet = true
+						}
+					}
+				default:
+					chk("C07.R4", "shared-write", false, "batch tasks update shared state through "+name+": items are no longer processed independently")
+				}
+			}
 		case "cb:ExecFallback":
 			chk("C08.R8,C09.R2", "item-exec", s.held == 0, "an item's fallback runs while the batch mutex is held: executions are serialised whatever the configured concurrency")
 		case "cb:Post":
